@@ -278,10 +278,13 @@ func (c *Cache) Filespace(subPath string) (filesystem.Filespace, error) {
 func (c *Cache) Remove(dest string) (err error) {
 	dest = varutil.CleanPath(dest)
 	if c.bufferFS.IsExist(dest) {
-		err = c.bufferFS.Remove(dest)
+		// a refused removal (non-empty directory) must not be replayed by Commit
+		if err = c.bufferFS.Remove(dest); err != nil {
+			return err
+		}
 	}
 	c.changeRemove(dest, true)
-	return err
+	return nil
 }
 
 // RemoveAll delete node by path recursively
